@@ -134,6 +134,10 @@ def assign_configs(ctx, scripts):
             sel += fst
         if not quick or i % 3 == 0:
             sel += bad                    # badger opens slowly: a subset in the quick tier
+        if any(st["op"] == "SetRelativeExpiry" for st in s["steps"]):
+            # a relative expiry is (re)armed by every save, and a delayed write is a save at an unknown later moment:
+            # such histories run without the delayed write cache (as the timed histories do)
+            sel = [c for c in sel if c["c"] != "write"]
         s["cfgs"] = [dict(c, cs=cs if c["c"] != "none" else 0) for c in sel]
     return scripts
 
